@@ -365,3 +365,104 @@ def replay(obname, model, result):
                 "    if abs(dA - dB) > 1e-5 * (abs(dA) + abs(dB) + 1e-12):\n"
                 "        ok, detail = False, '%%s at reduced (%%r, %%r): dA/dtau = %%r, dB/dx = %%r' %% (f, x, y, dA, dB); break\n") % (f,)
     return None
+
+
+# ---- tsat(sat(t)) == t over the reals, as a chain of lemmas ---------------------------------
+#
+# sat(t)  : theta = tk + n9/(tk - n10);  x0 = 2C/(-B + sqrt(B^2 - 4AC));  p = pstar * x0^4
+# tsat(p) : beta = p^(1/4);  D = 2G/(-F - sqrt(F^2 - 4EG));  tk = (n10 + D - sqrt((n10 + D)^2 - 4(n9 + n10 D)))/2
+# with A,B,C quadratic in theta and E,F,G quadratic in beta: the same bilinear form (lemma L2 = identity:*_on_saturation_curve).
+#   L1  x0 > 0 on the interval, so beta == x0
+#   L3  2 E theta + F >= 0, so theta is the root D that tsat's formula selects          (generic lemma G1)
+#   L4  2 tk - n10 - theta <= 0, so tk is the root that tsat's last formula selects      (generic lemma G2)
+#   S   tsat's returned value is exactly those two root formulas (structural identity on the real body)
+
+
+def _sat_parts(ns, b, t):
+    """Run the real sat over z3 reals and recover x0 from the single sqrt it takes."""
+    z = b.z3
+    n = ns['nr4']
+    tk = t + ns['tc_k']
+    theta = tk + n[8] / (tk - n[9])
+    A = theta * theta + n[0] * theta + n[1]
+    B = n[2] * theta * theta + n[3] * theta + n[4]
+    C = n[5] * theta * theta + n[6] * theta + n[7]
+    return tk, theta, A, B, C
+
+
+@plain
+def o_saturation_inverse(repo, arg, timeout_ms):
+    import z3
+    out = []
+    ns, b = _z3ns(repo)
+    n = ns['nr4']
+    t = z3.Real('t')
+    p = ns['sat'](t)
+    s1 = z3.Real('sqrt!1')
+    tk, theta, A, B, C = _sat_parts(ns, b, t)
+    lo, hi = b.R('0.01'), b.R('373.9459')
+    dom = [t >= lo, t <= hi] + b.side
+    x0 = 2 * C / (-B + s1)
+    # structural: the real sat returns pstar * x0^4 with s1 = sqrt(B^2 - 4AC)
+    t0 = time.time()
+    st, m = _check(z3, dom + [-B + s1 != 0], z3.And(p == ns['pstar4'] * x0 * x0 * x0 * x0), timeout_ms)
+    out.append(ob('identity:sat_is_pstar_times_x0_to_the_fourth', st, t0, backend='z3-nlsat', model={'t': _val(z3, m, t)} if m else None))
+    t0 = time.time()
+    st, m = _check(z3, dom, z3.And(-B + s1 != 0, tk - n[9] != 0), timeout_ms)
+    out.append(ob('safety:sat_denominators_nonzero', st, t0, backend='z3-nlsat', model={'t': _val(z3, m, t)} if m else None))
+    t0 = time.time()
+    st, m = _check(z3, dom + [-B + s1 != 0], x0 > 0, timeout_ms)
+    out.append(ob('lemma:L1_x0_positive', st, t0, backend='z3-nlsat', model={'t': _val(z3, m, t)} if m else None))
+    beta = z3.Real('beta')
+    E = beta * beta + n[2] * beta + n[5]
+    F = n[0] * beta * beta + n[3] * beta + n[6]
+    G = n[1] * beta * beta + n[4] * beta + n[7]
+    link = [beta * (-B + s1) == 2 * C, -B + s1 != 0]          # beta == x0
+    t0 = time.time()
+    st, m = _check(z3, dom + link, 2 * E * theta + F >= 0, timeout_ms)
+    out.append(ob('lemma:L3_theta_is_the_root_tsat_selects', st, t0, backend='z3-nlsat', model={'t': _val(z3, m, t)} if m else None))
+    t0 = time.time()
+    # the denominator -F - sqrt(F^2 - 4EG) equals -2 (E theta + F) on the curve (with L3): it must not vanish
+    st, m = _check(z3, dom + link, E * theta + F != 0, timeout_ms)
+    out.append(ob('safety:tsat_first_root_denominator_nonzero_on_the_curve', st, t0, backend='z3-nlsat', model={'t': _val(z3, m, t)} if m else None))
+    t0 = time.time()
+    st, m = _check(z3, [t >= lo, t <= hi], 2 * tk - n[9] - theta <= 0, timeout_ms)
+    out.append(ob('lemma:L4_tk_is_the_root_tsat_selects', st, t0, backend='z3-nlsat', model={'t': _val(z3, m, t)} if m else None))
+    # generic root-selection lemmas (free reals)
+    e, f, g, x, s, d = z3.Reals('e f g x s d')
+    t0 = time.time()
+    st, m = _check(z3, [e * x * x + f * x + g == 0, 2 * e * x + f >= 0, s >= 0, s * s == f * f - 4 * e * g, -f - s != 0, d * (-f - s) == 2 * g], d == x, timeout_ms)
+    out.append(ob('lemma:G1_root_2g_over_minus_f_minus_sqrt_is_the_plus_root', st, t0, backend='z3-nlsat'))
+    t0 = time.time()
+    st, m = _check(z3, [e * x * x + f * x + g == 0], z3.And(f * f - 4 * e * g >= 0, f * f - 4 * e * g == (2 * e * x + f) * (2 * e * x + f)), timeout_ms)
+    out.append(ob('lemma:G0_discriminant_nonnegative_at_a_root', st, t0, backend='z3-nlsat'))
+    t0 = time.time()
+    st, m = _check(z3, [e * x * x + f * x + g == 0, 2 * e * x + f >= 0, s >= 0, s * s == f * f - 4 * e * g, e * x + f != 0], -f - s != 0, timeout_ms)
+    out.append(ob('lemma:G3_denominator_is_minus_two_e_x_plus_f', st, t0, backend='z3-nlsat'))
+    k, th, n9, n10, r = z3.Reals('k th n9 n10 r')
+    t0 = time.time()
+    st, m = _check(z3, [k - n10 != 0, th == k + n9 / (k - n10), 2 * k - n10 - th <= 0, r >= 0, r * r == (n10 + th) * (n10 + th) - 4 * (n9 + n10 * th)],
+                   (n10 + th - r) / 2 == k, timeout_ms)
+    out.append(ob('lemma:G2_temperature_is_the_minus_root', st, t0, backend='z3-nlsat'))
+    # structural: the real tsat is exactly these two root formulas, with beta the fourth root of p / pstar
+    ns2, b2 = _z3ns(repo)
+    pp = z3.Real('p')
+    tt = ns2['tsat'](pp)
+    ys = [z3.Real('sqrt!%d' % k) for k in (1, 2, 3, 4)]
+    bt = ys[1]
+    E2 = bt * bt + n[2] * bt + n[5]
+    F2 = n[0] * bt * bt + n[3] * bt + n[6]
+    G2 = n[1] * bt * bt + n[4] * bt + n[7]
+    D = 2 * G2 / (-F2 - ys[2])
+    t0 = time.time()
+    ok_struct = len(b2.side) == 4
+    st, m = _check(z3, [pp >= b2.R('611.213'), pp <= ns2['pcritical']] + b2.side + [-F2 - ys[2] != 0],
+                   z3.And(tt == (n[9] + D - ys[3]) / 2 - ns2['tc_k'], ys[0] * ys[0] == pp / ns2['pstar4'], ys[1] * ys[1] == ys[0],
+                          ys[2] * ys[2] == F2 * F2 - 4 * E2 * G2, ys[3] * ys[3] == (n[9] + D) * (n[9] + D) - 4 * (n[8] + n[9] * D)), timeout_ms)
+    if not ok_struct:
+        st = 'failed'
+    out.append(ob('identity:tsat_is_the_two_root_formulas_of_the_standard', st, t0, backend='z3-nlsat', model={'p': _val(z3, m, pp)} if m else None))
+    return out
+
+
+PLAIN.append(('o_saturation_inverse', None))
